@@ -153,6 +153,38 @@ pub fn run_case(case: &mut Case) {
             );
         }
 
+        // (e) completion right of `--`: only positional data can follow, no flag, argument or
+        // command name is a candidate there
+        if has_dd && !b.alpha.cmds.is_empty() || has_dd && rng.chance(1, 4) {
+            let dd_ix = line.argv.iter().position(|a| a == b"--");
+            if let Some(dd_ix) = dd_ix {
+                let mut argv: Vec<Vec<u8>> = line.argv[..=dd_ix].to_vec();
+                argv.push(Vec::new());
+                let out = super::comp::complete(&b.parser, &argv, 0, None, fuel_for(&b.spec, &argv));
+                case.rep.count("completions-right-of-separator");
+                if let crate::outcome::Outcome::Completion(text) = &out {
+                    let r = super::comp::parse_rev0(text);
+                    for c in &r.items {
+                        let is_cmd = b.alpha.cmds.iter().any(|n| *n == c.subst);
+                        if is_cmd || (c.subst.starts_with('-') && c.subst.len() > 1) {
+                            case.rep.violation(
+                                if is_cmd {
+                                    "completion-offers-command-right-of-separator"
+                                } else {
+                                    "completion-offers-name-right-of-separator"
+                                },
+                                "completion",
+                                case.index,
+                                case_json(&b.spec, &argv)
+                                    .set("candidate", c.subst.as_str())
+                                    .set("completion", crate::outcome::clip(text)),
+                            );
+                            break;
+                        }
+                    }
+                }
+            }
+        }
         // (c) `--name --`: an argument name directly followed by the separator
         if let Some(at) = line.origin.iter().position(|o| o.role == Role::ArgName) {
             let mut argv = line.argv.clone();
